@@ -37,6 +37,12 @@ def main(ids):
         tdir = os.path.join(WT, "ciphercore-base", "tests")
         if os.path.isdir(demo):
             shutil.copytree(demo, os.path.join(WT, "deliver", "demo"), ignore=shutil.ignore_patterns("target"))
+            # the demonstrations refer to the worktree's crates by relative paths of varying depth
+            ct = os.path.join(WT, "deliver", "demo", "Cargo.toml")
+            txt = open(ct).read()
+            import re
+            txt = re.sub(r'path\s*=\s*"[^"]*ciphercore-(base|utils)"', lambda m: 'path = "%s/ciphercore-%s"' % (WT, m.group(1)), txt)
+            open(ct, "w").write(txt)
             demo_cmd, demo_cwd = ["cargo", "run", "--offline", "-j", "8"], os.path.join(WT, "deliver", "demo")
         elif has_demo:
             # an integration-test file: run it as ciphercore-base/tests/seeded_demo.rs
